@@ -56,6 +56,11 @@ def conditions(cfg):
                      ("write", "d2", "z0", 0, 1), ("write", "d1", "t1", 200, 0, 0),
                      # a file recorded with a zero sub-second stamp, rewritten since (other seconds, again zero sub-second)
                      ("write", "d1", "dir/t0", 300, 1, 0)],
+        # a synced multi-block file rewritten by the user since (same length, other bytes and time): a range-limited or selective fix
+        # that meets only its first blocks has no business with it
+        "rewritten-multiblock": [("write", "d1", "a", 2500, 1)],
+        # ... and the same for a file that an earlier scrub had marked bad
+        "bad-then-rewritten": [("dmg-data", "d1", "a"), ("cmd", "scrub", "-p", "full"), ("write", "d1", "a", 2500, 1)],
         "damaged": [("dmg-data", "d1", "a"), ("rm", "d2", "c"), ("dmg-parity", 0), ("rm", "d1", "ln"), ("rmdir", "d1", "ed")],
         "partial-loss": [("emptydisk", "d1")],
         # some files of each disk missing, the others intact (a partial fix must not touch the intact ones)
